@@ -23,7 +23,8 @@ EXPLANATION = (
     "start-derived defaults are recorded as None under the 'nothing supplied' condition and a later record of the "
     "same key is guarded by `key not in self._original_rule`; replace() overlays the record, then the caller's "
     "keywords. C12.COUNT: count() iterates fully when _len is None and returns _len (C12.LEN: published by every "
-    "generator exit).")
+    "generator exit)."
+    ' C12.SLICE: for every islice call of __getitem__, every bound (start/stop/step) and every class of value (absent, 0, negative, positive) either the branch facts at the call exclude the class or the argument, evaluated in a four-point abstract domain, means what the same bound means for a list slice (negative bounds and non-positive steps never reach islice, a zero stop stays zero).')
 ASSUMPTIONS = ["elements are totally ordered datetimes", "value-level agreement with list(rule) is NOT decided"]
 
 # (method) -> set of (inc-context, op, argument, outcome of the TRUE edge)
